@@ -212,7 +212,7 @@ theorem augmentLoop_keeps (B reg : Registry) : ∀ (f : Nat) (A : Array Nat) (s 
 /-! ### the pass and the loop of the two runs -/
 
 section
-variable {B X : Registry} {ds : List Mod} {dk : KeyMap} (h : DevExt B X ds dk)
+variable {B X : Registry} {ds : List Mod} {dk : KeyMap} (h : DevExtCore B X ds dk)
 include h
 
 /-- **One pass**: the array of the run with the new modules is that of the run without them followed
